@@ -40,7 +40,8 @@ def cases(tier, seed):
         yield "tx.dump", {"table": table, "mode": mode, "px": px, "o": o, "header": F_h("m5@38", 5) == 0,
                           "wexp": [rng.choice([0, 1, 2, -1]) for _ in range(n)] if balanced else [],
                           "chunk": rng.choice([1, 2, 3, 10 ** 6]), **({"at": ["/resolutions/10", "/a/b"][F_h("m2@40", 2)]} if F_h("m5@40", 5) == 3 else {}),
-                          "prior": F_h("m6@41", 6) == 1, "out": ["stdout", "stdout", "fresh", "existing"][F_h("out", 4)]}
+                          "prior": F_h("m6@41", 6) == 1, "out": ["stdout", "stdout", "fresh", "existing"][F_h("out", 4)],
+                          "legacy_attrs": F_h("legacy", 4) == 2}
     # (2) field layouts at arbitrary, non-monotone column numbers
     nl = 220 if tier == "quick" else 4000
     for h in range(nl):
@@ -83,7 +84,7 @@ def cases(tier, seed):
         F_h = gen.feat(103, h)          # independent feature choices per case (gen.feat)
         table = tables[F_h("len_tables@75", len(tables))]
         mode = "symm" if F_h("m2@76", 2) else "square"
-        extra = {"names": ["usual", "unsorted"][F_h("names", 2)]}
+        extra = {"names": ["usual", "unsorted", "numeric"][F_h("names", 3)]}
         if F_h("bins_spec", 2) == 0:
             # BINS as <chromsizes>:<bin size>: a fixed-width table
             lens = [[10, 7], [6, 6, 4], [9], [5, 12, 3, 8]][F_h("lens", 4)]
